@@ -1,0 +1,143 @@
+//! Verification hooks: only compiled with the cargo feature `verif_hooks`, which is off by
+//! default.  Nothing in here is used by the library itself; the functions expose internal
+//! arithmetic and internal secret-bearing types to an external test harness.
+//!
+//! Besides this module the feature makes the 4-leaf tree height `LmsAlgorithm::LmsH2`
+//! (LMS type code 1, otherwise `cfg(test)` only) available, so that complete key lifetimes can
+//! be walked cheaply.
+
+use tinyvec::ArrayVec;
+
+use crate::{
+    constants::{ILEN, REF_IMPL_MAX_PRIVATE_KEY_SIZE},
+    hasher::HashChain,
+    hss::definitions::HssPrivateKey,
+    util::coef::coef,
+    LmotsAlgorithm, Seed,
+};
+
+pub use crate::hss::reference_impl_private_key::{
+    generate_child_seed_and_lms_tree_identifier, generate_signature_randomizer,
+    ReferenceImplPrivateKey, SeedAndLmsTreeIdentifier,
+};
+pub use crate::lm_ots::definitions::LmotsPrivateKey;
+pub use crate::lm_ots::keygen::generate_private_key as generate_lmots_private_key;
+pub use crate::lm_ots::parameters::LmotsParameter;
+pub use crate::lms::definitions::LmsPrivateKey;
+pub use crate::lms::parameters::LmsParameter;
+
+/// Parses `blob` with the real private-key parser and builds an `HssPrivateKey` that carries
+/// the real per-level parameters and leaf indices but no trees, so that the counter arithmetic
+/// can be exercised for key shapes whose trees could never be generated.
+fn skeleton<H: HashChain>(
+    blob: &[u8],
+) -> Result<
+    (
+        ReferenceImplPrivateKey<H>,
+        HssPrivateKey<H>,
+        [u32; 8],
+        usize,
+    ),
+    (),
+> {
+    let sk = ReferenceImplPrivateKey::<H>::from_binary_representation(blob)?;
+    let parameters = sk.compressed_parameter.to::<H>()?;
+    let used = sk.compressed_used_leafs_indexes.to(&parameters);
+
+    let mut indices = [0u32; 8];
+    let mut key = HssPrivateKey::<H>::default();
+    let last = parameters.len() - 1;
+    for (i, parameter) in parameters.iter().enumerate() {
+        indices[i] = used[i];
+        // `HssPrivateKey::from` consumes one leaf of every non-bottom tree by signing the
+        // public key of the tree below it.
+        let used_leafs_index = if i < last { used[i] + 1 } else { used[i] };
+        key.private_key.push(LmsPrivateKey::new(
+            Seed::default(),
+            [0u8; ILEN],
+            used_leafs_index,
+            *parameter.get_lmots_parameter(),
+            *parameter.get_lms_parameter(),
+        ));
+    }
+    Ok((sk, key, indices, parameters.len()))
+}
+
+/// Leaf index used on every level (index 0 = top tree) for the counter in `blob`, and the
+/// number of levels: `CompressedUsedLeafsIndexes::to`.
+pub fn leaf_indices<H: HashChain>(blob: &[u8]) -> Result<([u32; 8], usize), ()> {
+    let (_, _, indices, levels) = skeleton::<H>(blob)?;
+    Ok((indices, levels))
+}
+
+/// The private key that would be handed to the update callback after one signature:
+/// `ReferenceImplPrivateKey::increment` + `to_binary_representation`.
+pub fn successor_blob<H: HashChain>(
+    blob: &[u8],
+) -> Result<ArrayVec<[u8; REF_IMPL_MAX_PRIVATE_KEY_SIZE]>, ()> {
+    let (mut sk, key, _, _) = skeleton::<H>(blob)?;
+    sk.increment(&key);
+    Ok(sk.to_binary_representation())
+}
+
+/// `HssPrivateKey::get_lifetime` for the counter in `blob`.
+pub fn remaining_lifetime<H: HashChain>(blob: &[u8]) -> Result<u64, ()> {
+    let (_, key, _, _) = skeleton::<H>(blob)?;
+    Ok(key.get_lifetime())
+}
+
+/// (n, w, p, ls) of an LM-OTS type code.
+pub fn ots_parameters<H: HashChain>(lmots_type: u32) -> Option<(usize, u8, u16, u8)> {
+    let parameter = LmotsAlgorithm::get_from_type::<H>(lmots_type)?;
+    Some((
+        parameter.get_hash_function_output_size(),
+        parameter.get_winternitz(),
+        parameter.get_num_winternitz_chains(),
+        parameter.get_checksum_left_shift(),
+    ))
+}
+
+/// The chain positions the library signs for `digest` (n bytes): `append_checksum_to` followed
+/// by `coef` for every chain.  Writes p values into `out` and returns p.
+pub fn ots_digits<H: HashChain>(lmots_type: u32, digest: &[u8], out: &mut [u8]) -> Option<usize> {
+    let parameter = LmotsAlgorithm::get_from_type::<H>(lmots_type)?;
+    if digest.len() != parameter.get_hash_function_output_size() {
+        return None;
+    }
+    let with_checksum = parameter.append_checksum_to(digest);
+    let p = parameter.get_num_winternitz_chains();
+    for i in 0..p {
+        out[i as usize] = coef(with_checksum.as_slice(), i, parameter.get_winternitz()) as u8;
+    }
+    Some(p as usize)
+}
+
+/// Event log of the fast-verify worker threads (start / end of each worker), so that a harness
+/// can report which overlap patterns of the workers it actually observed.
+#[cfg(feature = "fast_verify")]
+pub mod fv {
+    use std::{
+        collections::hash_map::DefaultHasher,
+        hash::{Hash, Hasher},
+        sync::Mutex,
+        vec::Vec,
+    };
+
+    static LOG: Mutex<Vec<(u8, u64)>> = Mutex::new(Vec::new());
+
+    /// kind 0 = worker started, 1 = worker finished
+    pub fn event(kind: u8) {
+        let mut hasher = DefaultHasher::new();
+        std::thread::current().id().hash(&mut hasher);
+        if let Ok(mut log) = LOG.lock() {
+            log.push((kind, hasher.finish()));
+        }
+    }
+
+    pub fn drain() -> Vec<(u8, u64)> {
+        match LOG.lock() {
+            Ok(mut log) => core::mem::take(&mut *log),
+            Err(_) => Vec::new(),
+        }
+    }
+}
